@@ -112,7 +112,9 @@ public:
       }
       break;
     case OP_SDIV:
-      if (k != 0) {
+      // x = y / k truncates: it is exactly invertible (y = x * k)
+      // only if |k| = 1
+      if (k == 1 || k == -1) {
         dom.apply(OP_MULTIPLICATION, y, x, k);
         if (!(x == y)) {
           dom -= x;
